@@ -45,6 +45,10 @@ impl Parsable for FileLocation {
                 '.' => {
                     ext_delimiter = Some(raw_string.len());
                 }
+                // A period in a directory name does not start the extension (e.g. ../file).
+                '/' => {
+                    ext_delimiter = None;
+                }
                 _ => (),
             }
             raw_string.push(c);
